@@ -138,7 +138,18 @@ def stress_job(job):
     d = os.path.join(job['scratch'], f'st-{cfg}-{wl}-{seed}-{nth}'); shutil.rmtree(d, ignore_errors=True); os.makedirs(d)
     rnd = random.Random(seed); viol = []
     oc = 'token-objects' if wl == 'token-writers' else 'session-objects-only'
-    def V(key, what, detail): viol.append((key.replace('|' + wl, '|' + oc), what, detail))
+    FAMILY_OWN = ('CKR_TEMPLATE_INCONSISTENT', 'CKR_GENERAL_ERROR', 'CKR_OBJECT_HANDLE_INVALID', 'own-object-readback', 'found-0-instead-of-1', 'object-lost', 'object-without-label', 'CKR_ATTRIBUTE_TYPE_INVALID', 'CKR_ATTRIBUTE_VALUE_INVALID')
+    def V(key, what, detail):
+        k = key.replace('|' + wl, '|' + oc)
+        if wl == 'token-writers':
+            # known root cause (DESIGN 4 row 20): ObjectFile::refresh drops and re-reads the attribute map without the object mutex, so a thread that is
+            # still building its own new token object loses attributes; the symptoms vary, the family is one: own new token object damaged
+            req = detail.get('req') or {}; shared = 'objs.0' in str(req.get('o', '')) or 'shared' in key
+            if key.startswith('C_FindObjectsInit|') and 'CKR_GENERAL_ERROR' in key: pass
+            elif shared and key.startswith('C_SetAttributeValue|') and key.endswith('CKR_GENERAL_ERROR'): k = 'token-objects|shared-object|concurrent-C_SetAttributeValue-refused(CKR_GENERAL_ERROR)'
+            elif not shared and any(f in key for f in FAMILY_OWN) and not key.startswith(('crash', 'deadlock', 'handle-issued-twice', 'C_Digest', 'C_Sign', 'C_Decrypt', 'C_Encrypt', 'C_OpenSession', 'C_CloseSession', 'C_Finalize')):
+                k = 'token-objects|own-new-object|attributes-lost-or-handle-invalid(ObjectFile::refresh window)'
+        viol.append((k, what, detail))
     x = None
     try:
         x, slot, s0 = setup(job['paths'], ck, cfg, d, job['locking'], seed)
